@@ -240,6 +240,9 @@ def run(ctx):
     # D14: native loads/stores address memory through ex->arrays[variable]; for a variable that is no array the compile must fail
     import importlib
     importlib.import_module("rules.c05").array_operand_checked(db, rep, "D14-ARRAY-OPERAND-CHECKED")
+    # D15: "for any ... alignment": an access whose displacement contains a program-chosen value is not emitted as aligned
+    from x86enc import check_aligned_load_offsets
+    check_aligned_load_offsets(db, rep, "D15-ALIGNED-ONLY-AT-LOOP-OFFSET")
     from rules.c15 import d6_token_cursor
     SETN = ("orc_program_set_constant_n", "orc_program_set_n_multiple", "orc_program_set_n_minimum", "orc_program_set_n_maximum",
             "orc_program_set_constant_m", "orc_program_set_2d")
